@@ -484,3 +484,131 @@ Proof.
   rewrite (dedupe_last_asc ps (-1) Hrows Hasc).
   rewrite Hv0. cbn [negb]. rewrite Nat.eqb_refl. reflexivity.
 Qed.
+
+(* ------------------------------------------------------------------ LOC *)
+(* sizes that the one-octet mantissa/exponent form can express: 0 and b * 10^e, 1<=b<=9, 0<=e<=9 *)
+Definition loc_sizes : list Z :=
+  0 :: flat_map (fun e => map (fun b => b * 10 ^ e) [1; 2; 3; 4; 5; 6; 7; 8; 9]) [0; 1; 2; 3; 4; 5; 6; 7; 8; 9].
+
+Definition size_rt (x : Z) : bool :=
+  match loc_encode_size x with
+  | Ok b => (0 <=? b) && (b <? 256) && match loc_decode_size b with Ok y => y =? x | _ => false end
+  | _ => false
+  end.
+
+Lemma loc_sizes_rt : forallb size_rt loc_sizes = true.
+Proof. vm_compute. reflexivity. Qed.
+
+Lemma loc_size_rt : forall x, In x loc_sizes ->
+  exists b, loc_encode_size x = Ok b /\ 0 <= b < 256 /\ loc_decode_size b = Ok x.
+Proof.
+  intros x Hin. pose proof loc_sizes_rt as H. rewrite forallb_forall in H. specialize (H x Hin).
+  unfold size_rt in H. destruct (loc_encode_size x) as [b| |]; try discriminate.
+  apply andb_prop in H as [H Hd]. apply andb_prop in H as [H0 H1].
+  destruct (loc_decode_size b) as [y| |] eqn:Ed; try discriminate. apply Z.eqb_eq in Hd. subst y.
+  exists b. split; [reflexivity|]. split; [lia|exact Ed].
+Qed.
+
+(* a legal, canonical coordinate: degrees/minutes/seconds/milliseconds within the limit,
+   hemisphere +1 for the zero coordinate (the reader cannot tell -0 from +0) *)
+Definition coord_canon (lim : Z) (c : list sval) : Prop :=
+  match c with
+  | [VI d; VI m; VI s; VI ms; VI sg] =>
+      0 <= d /\ 0 <= m <= 59 /\ 0 <= s <= 59 /\ 0 <= ms <= 999 /\ (sg = 1 \/ sg = -1) /\
+      d * 3600000 + m * 60000 + s * 1000 + ms <= lim * 3600000 /\
+      (d * 3600000 + m * 60000 + s * 1000 + ms = 0 -> sg = 1)
+  | _ => False
+  end.
+
+Lemma coord_rt : forall lim c, 0 <= lim <= 180 -> coord_canon lim c ->
+  coord_of_wire (coord_to_wire c) = c /\
+  two31 - lim * 3600000 <= coord_to_wire c <= two31 + lim * 3600000.
+Proof.
+  intros lim c Hl Hc.
+  destruct c as [|[d| | ] [|[m| | ] [|[s| | ] [|[ms| | ] [|[sg| | ] [|]]]]]]; cbn [coord_canon] in Hc; try contradiction.
+  destruct Hc as (Hd & Hm & Hs & Hms & Hsg & Hlim & Hz).
+  cbn [coord_to_wire]. unfold coord_of_wire, two31 in *.
+  set (T := d * 3600000 + m * 60000 + s * 1000 + ms) in *.
+  assert (HT : 0 <= T) by (unfold T; lia).
+  destruct Hsg as [-> | ->].
+  - replace (2147483648 + T * 1 >=? 2147483648) with true by lia.
+    replace (Z.abs (2147483648 + T * 1 - 2147483648)) with T by lia.
+    split; [|lia]. unfold T. repeat f_equal; lia.
+  - assert (T <> 0) by (intro E; specialize (Hz E); lia).
+    replace (2147483648 + T * -1 >=? 2147483648) with false by lia.
+    replace (Z.abs (2147483648 + T * -1 - 2147483648)) with T by lia.
+    split; [|lia]. unfold T. repeat f_equal; lia.
+Qed.
+
+Theorem loc_roundtrip_thm : forall lat lon alt size hp vp b A P,
+  coord_canon 90 lat -> coord_canon 180 lon ->
+  0 <= alt + 10000000 < 4294967296 ->
+  In size loc_sizes -> In hp loc_sizes -> In vp loc_sizes ->
+  hand_encode_rdata HLoc None [VL [lat]; VL [lon]; VS (VI alt); VS (VI size); VS (VI hp); VS (VI vp)] = Ok b ->
+  hand_decode_rdata HLoc None (A ++ b ++ P) (length A) (length b)
+  = Ok [VL [lat]; VL [lon]; VS (VI alt); VS (VI size); VS (VI hp); VS (VI vp)].
+Proof.
+  intros lat lon alt size hp vp b A P Hlat Hlon Halt Hs Hh Hv He.
+  unfold hand_encode_rdata in He. cbn [hand_valid hand_enc] in He.
+  destruct (loc_valid [VL [lat]; VL [lon]; VS (VI alt); VS (VI size); VS (VI hp); VS (VI vp)]) eqn:Hval; [|discriminate].
+  cbn [loc_enc] in He.
+  destruct (loc_size_rt size Hs) as (bs & Es & Rs & Ds).
+  destruct (loc_size_rt hp Hh) as (bh & Eh & Rh & Dh).
+  destruct (loc_size_rt vp Hv) as (bv & Ev & Rv & Dv).
+  rewrite Es, Eh, Ev in He. cbn [bind] in He.
+  destruct (coord_rt 90 lat ltac:(lia) Hlat) as [Clat Rlat].
+  destruct (coord_rt 180 lon ltac:(lia) Hlon) as [Clon Rlon].
+  unfold two31 in Rlat, Rlon.
+  match type of He with context [if ?c then _ else _] => destruct c eqn:Hr end; [|discriminate].
+  apply Ok_inj in He. subst b.
+  unfold hand_decode_rdata.
+  repeat match goal with |- context [Nat.ltb ?a ?b] =>
+    destruct (Nat.ltb_spec a b) as [Hx|_]; [exfalso; rewrite ?app_length in Hx; cbn [length] in Hx; lia|] end.
+  cbv zeta. cbn [hand_dec hand_valid]. unfold loc_dec.
+  set (la := coord_to_wire lat) in *. set (lo := coord_to_wire lon) in *. set (al := alt + 10000000) in *.
+  set (b5 := be_encode 4 la). set (b6 := be_encode 4 lo). set (b7 := be_encode 4 al).
+  assert (L5 : length b5 = 4%nat) by apply be_encode_length.
+  assert (L6 : length b6 = 4%nat) by apply be_encode_length.
+  assert (L7 : length b7 = 4%nat) by apply be_encode_length.
+  assert (B1 : forall z, 0 <= z < 256 -> [z] = be_encode 1 z).
+  { intros z Hz. unfold be_encode. cbn [app]. f_equal. lia. }
+  assert (P4 : pow256 4 = 4294967296) by reflexivity.
+  change ([0; bs; bh; bv] ++ b5 ++ b6 ++ b7) with ([0] ++ [bs] ++ [bh] ++ [bv] ++ b5 ++ b6 ++ b7).
+  rewrite (B1 0) by lia. rewrite (B1 bs) by lia. rewrite (B1 bh) by lia. rewrite (B1 bv) by lia.
+  set (c0 := be_encode 1 0). set (c1 := be_encode 1 bs). set (c2 := be_encode 1 bh). set (c3 := be_encode 1 bv).
+  assert (M0 : length c0 = 1%nat) by apply be_encode_length.
+  assert (M1 : length c1 = 1%nat) by apply be_encode_length.
+  assert (M2 : length c2 = 1%nat) by apply be_encode_length.
+  assert (M3 : length c3 = 1%nat) by apply be_encode_length.
+  rewrite (get_u_at _ _ _ 1 0 A (c1 ++ c2 ++ c3 ++ b5 ++ b6 ++ b7) P)
+    by (try (subst c0 c1 c2 c3 b5 b6 b7; list_eq'); try (rewrite pow256_1; lia); rewrite ?app_length; lia).
+  cbn [bind fst snd].
+  rewrite (get_u_at _ _ _ 1 bs (A ++ c0) (c2 ++ c3 ++ b5 ++ b6 ++ b7) P)
+    by (try (subst c0 c1 c2 c3 b5 b6 b7; list_eq'); try (rewrite pow256_1; lia); rewrite ?app_length; lia).
+  cbn [bind fst snd].
+  rewrite (get_u_at _ _ _ 1 bh ((A ++ c0) ++ c1) (c3 ++ b5 ++ b6 ++ b7) P)
+    by (try (subst c0 c1 c2 c3 b5 b6 b7; list_eq'); try (rewrite pow256_1; lia); rewrite ?app_length; lia).
+  cbn [bind fst snd].
+  rewrite (get_u_at _ _ _ 1 bv (((A ++ c0) ++ c1) ++ c2) (b5 ++ b6 ++ b7) P)
+    by (try (subst c0 c1 c2 c3 b5 b6 b7; list_eq'); try (rewrite pow256_1; lia); rewrite ?app_length; lia).
+  cbn [bind fst snd].
+  rewrite (get_u_at _ _ _ 4 la ((((A ++ c0) ++ c1) ++ c2) ++ c3) (b6 ++ b7) P)
+    by (try (subst c0 c1 c2 c3 b5 b6 b7; list_eq'); try (rewrite P4; lia); rewrite ?app_length; lia).
+  cbn [bind fst snd].
+  rewrite (get_u_at _ _ _ 4 lo (((((A ++ c0) ++ c1) ++ c2) ++ c3) ++ b5) b7 P)
+    by (try (subst c0 c1 c2 c3 b5 b6 b7; list_eq'); try (rewrite P4; lia); rewrite ?app_length; lia).
+  cbn [bind fst snd].
+  rewrite (get_u_at _ _ _ 4 al ((((((A ++ c0) ++ c1) ++ c2) ++ c3) ++ b5) ++ b6) [] P)
+    by (try (subst c0 c1 c2 c3 b5 b6 b7; list_eq'); try (rewrite P4; lia); rewrite ?app_length; cbn [length]; lia).
+  cbn [bind fst snd]. cbn [Z.eqb negb].
+  unfold two31.
+  replace ((la <? 2147483648 - 90 * 3600000) || (la >? 2147483648 + 90 * 3600000)) with false by lia.
+  replace ((lo <? 2147483648 - 180 * 3600000) || (lo >? 2147483648 + 180 * 3600000)) with false by lia.
+  rewrite Ds, Dh, Dv. cbn [bind].
+  subst la lo. rewrite Clat, Clon.
+  replace (al - 10000000) with alt by (unfold al; lia).
+  cbn [bind fst snd]. rewrite Hval. cbn [negb].
+  match goal with |- context [Nat.eqb ?a ?b] => replace (Nat.eqb a b) with true
+    by (symmetry; apply Nat.eqb_eq; rewrite ?app_length; cbn [length]; lia) end.
+  reflexivity.
+Qed.
